@@ -56,7 +56,7 @@ def cases(ctx):
         mode = "curve" if rng.random() < 0.93 else "tam"
         if mode == "curve":
             N = int(rng.integers(2, 13))
-            kind = str(rng.choice(["random", "lattice", "dupx", "rounded", "ulp", "intdtype", "endtouch"]))
+            kind = str(rng.choice(["random", "lattice", "dupx", "rounded", "ulp", "intdtype", "endtouch", "bigint"]))
             if kind == "random":
                 x, y = np.sort(rng.normal(0, 1, N)), rng.normal(0, 1, N)
             elif kind == "lattice":
@@ -66,6 +66,9 @@ def cases(ctx):
                 y = rng.integers(0, 4, 7).astype(float)[x.astype(int)]
             elif kind == "intdtype":  # integer x and y (true division must not truncate)
                 x, y = np.arange(N) * int(rng.integers(1, 4)), rng.integers(0, 5, N)
+            elif kind == "bigint":  # integer counts/costs of the order of billions (a cost metric, counts beside 1e10 easy samples) with integer targets
+                x = np.arange(N) * int(rng.integers(1, 4))
+                y = rng.integers(-6 * 10 ** 9, 6 * 10 ** 9, N) if rng.random() < 0.5 else 10 ** 10 + np.cumsum(rng.integers(-3 * 10 ** 9, 3 * 10 ** 9, N))
             elif kind == "endtouch":  # the extreme value is reached only at the first / last sample
                 x = np.sort(rng.uniform(0, 5, N))
                 y = np.sort(rng.uniform(0, 1, N)) if rng.random() < 0.5 else np.sort(rng.uniform(0, 1, N))[::-1].copy()
@@ -81,14 +84,19 @@ def cases(ctx):
                     for _ in range(abs(k)):
                         v = np.nextafter(v, np.inf if k > 0 else -np.inf)
                     y[j] = v
-            if kind != "intdtype" and rng.random() < 0.3:
+            if kind not in ("intdtype", "bigint") and rng.random() < 0.3:
                 # the same curve at another amplitude / around an offset: consecutive samples closer than any fixed "closeness" tolerance
-                amp, off = float(rng.choice([1e-9, 1e-8, 1e-6, 1e-3, 1e4])), float(rng.choice([0.0, 0.0, 1.0, 1000.0]))
+                amp, off = float(rng.choice([1e-9, 1e-8, 1e-6, 1e-3, 1e4, 1e-170, 1e-250, 1e150])), float(rng.choice([0.0, 0.0, 1.0, 1000.0]))
+                if amp < 1e-100 or amp > 1e100:
+                    off = 0.0  # amplitudes near the ends of the float range: around zero only (beside an offset they would not be representable)
                 y = off + amp * np.asarray(y, dtype=float)
                 kind = kind + "*amp"
             yf = np.asarray(y, dtype=float)
             amp_ = float(np.ptp(yf)) or 1.0
             ts = np.concatenate([rng.choice(yf, 2), rng.uniform(yf.min() - 0.5 * amp_, yf.max() + 0.5 * amp_, 3), [yf.min() - amp_, yf.max() + amp_, yf.min(), yf.max(), 1.0]]) if kind.endswith("*amp") else np.concatenate([rng.choice(yf, 2), rng.uniform(yf.min() - 0.5, yf.max() + 0.5, 3), [yf.min() - 1, yf.max() + 1, yf.min(), yf.max(), 1.0]])
+            if kind == "bigint":  # integer targets: on the samples, between them, far outside
+                yi = np.asarray(y, dtype=np.int64)
+                ts = np.concatenate([rng.choice(yi, 3), rng.integers(int(yi.min()) - 5, int(yi.max()) + 5, 4), [int(yi.min()) - 4 * 10 ** 9, int(yi.max()) + 4 * 10 ** 9, int(yi.min()), int(yi.max())]]).astype(np.int64)
             ts = ts[rng.permutation(len(ts))]
             yield {"mode": "curve", "kind": kind, "x": x, "y": y, "t": ts, "form": str(rng.choice(["array", "array", "list", "scalar"]))}
         else:
